@@ -354,6 +354,8 @@ where
         self.interface.reset(delay, 20_000, 2000);
         // the reset switches the booster off again
         self.is_turned_on = false;
+        // ... and takes the controller out of partial mode
+        self.refresh_mode = RefreshLut::Full;
 
         // Set the panel settings: LUT from register
         self.cmd_with_data(spi, Command::PanelSetting, &[0x6F])?;
